@@ -68,12 +68,12 @@ fn program(c: &Case, module_mode: bool) -> String {
         "method" => format!("m =\n  n: 1\n  go: ||\n{}m.go()\n", indent(&spin, 4)),
         "nested-closure" => format!("f = ||\n  g = ||\n    h = ||\n{}    h()\n  g()\nf()\n", indent(&spin, 6)),
         "overload-add" => format!("o =\n  @+: |other|\n{}print o + 1\n", indent(&spin, 4)),
-        "overload-less-sort" => format!("mk = |n|\n  n: n\n  @<: |other|\n{}l = [mk(2), mk(1)]\nl.sort()\n", indent(&spin, 4)),
+        "overload-less-sort" => format!("mk = |n|\n  n: n\n  @<: |other|\n{}l = (0..40).each(|n| mk(40 - n)).to_list()\nl.sort()\n", indent(&spin, 4)),
         "display" => format!("o =\n  @display: ||\n{}print 'value: {{o}}'\n", indent(&spin, 4)),
         "next-object" => format!("o =\n  @next: ||\n{}for v in o\n  print v\n", indent(&spin, 4)),
         "generator-body" => format!("g = ||\n  yield 0\n{}for v in g()\n  v\n", indent(&spin, 2)),
         "adaptor-callback" => format!("r = (1, 2).each |v|\n{}print r.to_tuple()\n", indent(&spin, 2)),
-        "sort-key" => format!("l = [2, 1]\nl.sort |v|\n{}", indent(&spin, 2)),
+        "sort-key" => format!("l = (0..40).to_list()\nl.sort |v|\n{}", indent(&spin, 2)),
         "import" => {
             if module_mode {
                 return spin;
@@ -110,7 +110,9 @@ fn run_once(c: &Case, dir: &PathBuf) -> (u128, String, kx::Outcome, bool, [usize
     let _ = std::fs::write(dir.join("main.koto"), &src);
     let cap = Capture::default();
     let opts = RunOpts { limit_ms: Some(c.limit_ms), script_path: Some(dir.join("main.koto").to_string_lossy().to_string()), ..Default::default() };
-    let mut koto = koto::Koto::with_settings(kx::settings(&cap, &opts));
+    // the order in which the host configures the settings rotates with the case
+    let limit_first = (c.lp + c.place + c.wrap + c.weight) % 2 == 1;
+    let mut koto = koto::Koto::with_settings(kx::settings_ordered(&cap, &opts, limit_first));
     let t0 = Instant::now();
     let cpu0 = cpu_ms();
     let outcome = kx::run_on(&mut koto, &src, &opts);
